@@ -20,6 +20,7 @@ TRUSTED_BASE = [
 ASSUMPTIONS = ["dumps are read back through libvata's own Timbuk serializer/parser (C13 checks those)", "UnionDisjointStates is only applied to operands with disjoint state numbers or to table-sharing copies",
                "correspondence is sampling: a history shape no generator produces is not covered"]
 FLAVOURS = {"quick": ["plain"], "thorough": ["plain", "asan"]}
+SANITIZER_CAP = 3000
 SIG = [(0, 0), (1, 0), (2, 1), (3, 2)]
 CORPUS = [
     "bu 5 ; L 0 T 1 101 2 0 100 0 3 101 2 100 100 ; L 1 T 1 1 3 1 0 0 2 1 1 0 2 1 1 1 ; L 2 T 1 1 2 0 0 0 2 1 1 0 ; UD 3 0 1 ; UD 4 0 2",      # D14
